@@ -4,7 +4,7 @@ from . import core_cfg as C
 
 PID = 'C16'
 INV = ['C16_AnnouncedOnceInOrder', 'C16_Unsubscribed', 'C16_Reply']
-FINV = ['C16_BroadcastFaultTolerated', 'C16_OneAnnouncementLost', 'C03_UserFault', 'C03_NoHalf']
+FINV = ['C16_BroadcastFaultTolerated', 'C16_OneAnnouncementLost', 'C03_UserFault', 'C03_CtorFault', 'C03_NoHalf']
 OV = [('WithComm', 'TRUE')]
 
 
@@ -23,22 +23,22 @@ def run(tier, seed):
     if tier == 'quick':
         mc = [dict(name='C16_msgs', progs=C.fam(['P01', 'P03', 'P04', 'P05', 'P07', 'P08', 'P09', 'P12']), plans=[[]], alphabet=msgs, k=3, invariants=INV, overrides=OV),
               dict(name='C16_mixed', progs=C.fam(['P03', 'P04', 'P09']), plans=[[]], alphabet=mixed, k=3, invariants=INV, overrides=OV),
-              dict(name='C16_bfaults', progs=C.fam(['P02', 'P03', 'P04', 'P07', 'P08']), plans=bcast_fault_plans((1, 2, 3)), alphabet=['rpc', 'kill'], k=1,
+              dict(name='C16_bfaults', progs=C.fam(['P02', 'P03', 'P04', 'P07', 'P08']), plans=bcast_fault_plans((1, 2, 3, 4)), alphabet=['rpc', 'kill'], k=1,
                    invariants=FINV, overrides=OV, **fk)]
         rp = [dict(name='C16_msgs', progs=C.fam(['P01', 'P03', 'P04', 'P05', 'P07', 'P08', 'P09', 'P12']), plans=[[]], alphabet=msgs, k=2, overrides=OV, run_kw=rk),
               dict(name='C16_mixed', progs=C.fam(['P03', 'P04']), plans=[[]], alphabet=['rpc', 'kill', 'play', 'pause'], k=2, overrides=OV, run_kw=rk),
-              dict(name='C16_bfaults', progs=C.fam(['P02', 'P03', 'P04']), plans=bcast_fault_plans((1, 2, 3)), alphabet=['rpc', 'kill'], k=1,
+              dict(name='C16_bfaults', progs=C.fam(['P02', 'P03', 'P04']), plans=bcast_fault_plans((1, 2, 3, 4)), alphabet=['rpc', 'kill'], k=1,
                    overrides=OV, run_kw=rk, **fk),
               dict(name='C16_downgrade', progs=down, plans=[[]], alphabet=msgs, k=2, overrides=OV, run_kw=rk)]
         mc.append(dict(name='C16_downgrade', progs=down, plans=[[]], alphabet=msgs, k=3, invariants=INV, overrides=OV))
     else:
         mc = [dict(name='C16_msgs', progs=C.fam(C.ALL), plans=[[]], alphabet=msgs, k=4, invariants=INV, overrides=OV),
               dict(name='C16_mixed', progs=C.fam(C.ALL), plans=[[]], alphabet=mixed, k=3, invariants=INV, overrides=OV),
-              dict(name='C16_bfaults', progs=C.fam(C.ALL), plans=bcast_fault_plans((1, 2, 3, 4)), alphabet=['rpc', 'kill', 'pause', 'play'], k=2,
+              dict(name='C16_bfaults', progs=C.fam(C.ALL), plans=bcast_fault_plans((1, 2, 3, 4, 5)), alphabet=['rpc', 'kill', 'pause', 'play'], k=2,
                    invariants=FINV, overrides=OV, **fk)]
         rp = [dict(name='C16_msgs', progs=C.fam(C.ALL), plans=[[]], alphabet=msgs, k=3, overrides=OV, run_kw=rk),
               dict(name='C16_mixed', progs=C.fam(['P03', 'P04', 'P05']), plans=[[]], alphabet=['rpc', 'bcast', 'kill', 'play'], k=3, overrides=OV, run_kw=rk),
-              dict(name='C16_bfaults', progs=C.fam(C.ALL), plans=bcast_fault_plans((1, 2, 3, 4)), alphabet=['rpc', 'kill'], k=1,
+              dict(name='C16_bfaults', progs=C.fam(C.ALL), plans=bcast_fault_plans((1, 2, 3, 4, 5)), alphabet=['rpc', 'kill'], k=1,
                    overrides=OV, run_kw=rk, **fk),
               dict(name='C16_downgrade', progs=down, plans=[[]], alphabet=mixed, k=3, overrides=OV, run_kw=rk)]
         mc.append(dict(name='C16_downgrade', progs=down, plans=[[]], alphabet=mixed, k=3, invariants=INV, overrides=OV))
